@@ -576,7 +576,9 @@ class InboundStream:
                 if ordered and chunk.stream_seq == self.sequence_number:
                     self.sequence_number = uint16_add(self.sequence_number, 1)
                 pos = start_pos
+                start_pos = None
                 yield (chunk.stream_id, chunk.protocol, user_data)
+                continue
             else:
                 pos += 1
 
